@@ -145,6 +145,11 @@ class HarnessFault(Exception):
 JunkTuple = collections.namedtuple("JunkTuple", ["a", "b"])
 
 
+class JunkList(list):
+    pass
+
+
+
 def make_junk(what):
     if what == "int":
         return 17
@@ -156,6 +161,15 @@ def make_junk(what):
         return JunkTuple(1, 2)
     if what == "obj":
         return object()
+    # instances of SUBCLASSES of the containers asynq looks into are not such containers
+    if what == "nt_none":
+        return JunkTuple(None, None)
+    if what == "odict":
+        return collections.OrderedDict()
+    if what == "ddict":
+        return collections.defaultdict(list)
+    if what == "listsub":
+        return JunkList()
     raise HarnessFault("junk %r" % (what,))
 
 
@@ -298,7 +312,7 @@ def exec_block(rt, fr, block):
                 except BaseException as e:
                     rt.ev_resume_exc(fr, k, leaves, e)
                     rt.check_unchanged(fr, k, obj, snap)
-                    if flag == "twice" and rep == 0 and isinstance(e, Exception):
+                    if flag == "twice" and rep == 0 and isinstance(e, Exception) and not isinstance(e, HarnessFault):
                         fr.received.append(("caught", exc_desc(e)))
                         rt.ev_caught(fr, e)
                         continue
@@ -331,6 +345,8 @@ def exec_block(rt, fr, block):
                         if (yield from exec_block(rt, fr, body)):
                             return RET
                     except Exception as e:
+                        if isinstance(e, HarnessFault):
+                            raise  # never a program-level event
                         fr.received.append(("caught", exc_desc(e)))
                         rt.ev_caught(fr, e)
                         if (yield from exec_block(rt, fr, handler)):
@@ -340,7 +356,7 @@ def exec_block(rt, fr, block):
                         if (yield from exec_block(rt, fr, body)):
                             return RET
                     except BaseException as e:
-                        if isinstance(e, GeneratorExit):
+                        if isinstance(e, (GeneratorExit, HarnessFault)):
                             raise
                         fr.received.append(("caught", exc_desc(e)))
                         rt.ev_caught(fr, e)
